@@ -39,7 +39,8 @@ class MinSetCover():
         
         self.universe = universe
         self.subsets = subsets
-        self.subset_weights = subset_weights
+        # If not provided, each subset has weight 1 (as documented)
+        self.subset_weights = subset_weights if subset_weights is not None else [1] * len(subsets)
         self.set_cover = []
         self.set_cover_indices = []
         self.set_cover_weights = []
